@@ -30,6 +30,14 @@ func VSymLabels(tag string, max int) map[string]string {
 		return nil
 	}
 	m := map[string]string{}
+	if zzverif.Param("CL", 0) == 1 {
+		// concrete label universe (2 keys x 2 values): lets code that builds strings from labels run concretely
+		for i := 0; i < n; i++ {
+			k := []string{"app", "tier"}[zzverif.NondetInt(tag+".ck", 0, 1)]
+			m[k] = []string{"x", "y"}[zzverif.NondetInt(tag+".cv", 0, 1)]
+		}
+		return m
+	}
 	for i := 0; i < n; i++ {
 		k := zzverif.NondetString(tag + ".k")
 		zzverif.Assume(k != "") // label keys are never empty (label syntax)
